@@ -17,7 +17,7 @@
 (* every call of the table on an empty disk) for the function-level binding.    *)
 EXTENDS FitsTiler, Json
 
-CONSTANT Scripts        \* set of sequences of indices into CmdTable
+\* (Scripts - a set of sequences of indices into CmdTable - comes with the data: FitsTilerData)
 
 VARIABLE hist           \* the calls issued so far (indices into CmdTable)
 hvars == <<vars, hist>>
@@ -30,12 +30,13 @@ ScriptNext == \E s \in Scripts : /\ Len(hist) < Len(s)
 ScriptSpec == HInit /\ [][ScriptNext]_hvars
 FreeNext == \E k \in Cmds : Step(k)
 FreeSpec == HInit /\ [][FreeNext]_hvars
-AllNext == Next /\ UNCHANGED hist
+AllNext == (\E k \in Cmds : Do(k)) /\ UNCHANGED hist
 AllSpec == HInit /\ [][AllNext]_hvars
 LastSpec == AllSpec
 ViewAll == <<dirs, ncalls>>
-\* the theorems about one more call are evaluated in the states that still have a call to go
-StepTheoremsBounded == ncalls < MaxCalls => StepTheorems
+\* the theorems about one more call are evaluated in the states reached by fewer than StepBound calls
+CONSTANT StepBound
+StepTheoremsBounded == (ncalls < MaxCalls /\ ncalls < StepBound) => StepTheorems
 
 \* ---- emitter (always-true invariant)
 DirRec(d) == [dir |-> d, wtml |-> dirs[d].wtml, lay |-> dirs[d].lay, rng |-> dirs[d].rng, tiles |-> dirs[d].tiles,
